@@ -399,7 +399,7 @@ def obligations(tier):
             obs.append({'name': 'conn.queue.%s.x%d' % (nm, xl), 'fn': 'conn_step', 'group': 'conn_step',
                         'cfg': {'lens': lens, 'op': 'queue', 'xlen': xl}, 'timeout': 60})
     import itertools
-    bufs = [[], [1], [1, 2]] if tier == 'quick' else [[], [1], [2], [3], [1, 2], [2, 1], [1, 1]]
+    bufs = [[], [1], [1, 2]] if tier == 'quick' else [[], [1], [3], [1, 2], [2, 1]]
     for cb in bufs:
         for ub in bufs:
             for cin in (0, 2) if tier == 'quick' else (0, 1, 2):
@@ -416,6 +416,8 @@ def obligations(tier):
         ev = ''.join(ev)
         if ev.count('C') + ev.count('U') == 0:
             continue
+        if k == 3 and '-' in ev:
+            continue        # 3-step schedules with an idle step add nothing over the 2-step ones + inductive tunnel_step
         for m0 in (0, 1, 2):
             obs.append({'name': 'tunnel.%s.m%d' % (ev, m0), 'fn': 'tunnel', 'group': 'tunnel',
                         'cfg': {'events': ev, 'm0': m0}, 'timeout': 300 if tier == 'quick' else 1200})
@@ -434,7 +436,7 @@ def obligations(tier):
             obs.append({'name': 'relay.%s.cut%d' % (tpl, c), 'fn': 'http_relay', 'group': 'http_relay',
                         'cfg': {'tpl': tpl, 'cuts': [c]}, 'timeout': 120})
         if tier == 'thorough':
-            for c1 in range(max(1, n - 16), n):
+            for c1 in range(max(1, n - 12), n):
                 for c2 in range(c1 + 1, n):
                     obs.append({'name': 'relay.%s.cut%d_%d' % (tpl, c1, c2), 'fn': 'http_relay', 'group': 'http_relay',
                                 'cfg': {'tpl': tpl, 'cuts': [c1, c2], 'small': True}, 'timeout': 240})
@@ -449,8 +451,8 @@ META = {
                  'symbolic short-write/would-block outcomes on both sockets, then a fair drain; http relay: 8 response framings '
                  '(CL 0/3, chunked, chunked+extension+trailer, close-delimited, 100+final, two back-to-back, header-less) with 3 '
                  'symbolic body bytes, delivered whole and cut at every position, 4 symbolic client send outcomes',
-        'thorough': 'tunnel: 4 steps, segment lengths 1 and 3, also with --max-sendbuf-size 2; relay: additionally every pair of '
-                    'cuts in the last 16 bytes with --max-sendbuf-size 2',
+        'thorough': 'tunnel_step over 5 buffer shapes x 3 unread-segment lengths per side; tunnel: all 3-step schedules of arrivals; relay: additionally every pair of '
+                    'cuts in the last 12 bytes with --max-sendbuf-size 2',
     },
     'outside': 'payloads beyond 3 bytes per segment and 4 steps (so no multi-megabyte transfers); kernel TCP behaviour; '
                'more than two cuts per response; TLS-wrapped sockets',
